@@ -63,3 +63,35 @@ Fixpoint p_olist_eqb (a b : list (option string)) : bool :=
 Definition pcase_mismatch (c : pcase) : bool :=
   negb (p_olist_eqb (prof_run (pc_table c) (pc_cluster c) (pc_sels c) (pc_windows c)) (pc_obs c)).
 Definition prof_mismatches (cs : list pcase) : list Z := map pc_id (filter pcase_mismatch cs).
+
+(* ---------- TraceQL: ONE real plan object executed under a list of contexts (plain executions and portions of a complex
+   request in any order, harness replan `tail` / `reuse`) against C11's model: the statement of the n-th Process call is
+   TraceqlPlan.plan q mode ctx_n n. The observed text travels as its fingerprint (TraceqlCase.fingerprint: two 63-bit
+   polynomial hashes + length); None = Process returned an error or panicked. `tq_one_object = false`: every call was made
+   on a new plan object (`fresh`): the call index stays 1. ---------- *)
+From Qryn Require model.TraceqlCase.
+From Coq Require Uint63.
+Record tqcall := { tqc_ctx : TraceqlPlan.ctx; tqc_fp : option (Uint63.int * Uint63.int * Uint63.int) }.
+Record tqcase := { tq_id : Z; tq_q : Traceql.script; tq_mode : TraceqlPlan.mode; tq_one_object : bool; tq_calls : list tqcall }.
+Definition tq_call_mismatch (q : Traceql.script) (m : TraceqlPlan.mode) (n : nat) (k : tqcall) : bool :=
+  match TraceqlPlan.plan q m (tqc_ctx k) n, tqc_fp k with
+  | TraceqlPlan.Ok s, Some fp => negb (TraceqlCase.fp_eqb (TraceqlCase.fingerprint (TqSql.render s)) fp)
+  | TraceqlPlan.Ok _, None => true
+  | _, Some _ => true
+  | _, None => false
+  end.
+Fixpoint tq_calls_mismatch (q : Traceql.script) (m : TraceqlPlan.mode) (one : bool) (n : nat) (i : Z) (l : list tqcall) : list Z :=
+  match l with
+  | [] => []
+  | k :: r => ((if tq_call_mismatch q m n k then [i] else []) ++ tq_calls_mismatch q m one (if one then S n else n) (i + 1)%Z r)%list
+  end.
+(* (case id, index of the disagreeing execution) *)
+Definition tq_mismatches (cs : list tqcase) : list (Z * Z) :=
+  flat_map (fun c => map (fun i => (tq_id c, i)) (tq_calls_mismatch (tq_q c) (tq_mode c) (tq_one_object c) 1 0%Z (tq_calls c))) cs.
+(* the model's own statement of execution i of a case, for the report *)
+Definition tq_model_text (c : tqcase) (i : nat) : option String.string :=
+  match nth_error (tq_calls c) i with
+  | Some k => match TraceqlPlan.plan (tq_q c) (tq_mode c) (tqc_ctx k) (if tq_one_object c then S i else 1) with
+              | TraceqlPlan.Ok s => Some (TqSql.render s) | _ => None end
+  | None => None
+  end.
